@@ -22,6 +22,8 @@
 #include "clang/AST/ExprCXX.h"
 #include "clang/AST/RecordLayout.h"
 #include "clang/AST/RecursiveASTVisitor.h"
+#include "clang/AST/OpenMPClause.h"
+#include "clang/AST/StmtOpenMP.h"
 #include "clang/Analysis/CFG.h"
 #include "clang/Basic/SourceManager.h"
 #include "clang/Frontend/CompilerInstance.h"
@@ -239,6 +241,18 @@ class Facts : public RecursiveASTVisitor<Facts>
       add("\"op\":" + jstr(hexid(LE->getCallOperator())));
       add("\"cls\":" + jstr(hexid(LE->getLambdaClass())));
       add(std::string("\"k\":\"lambda\""));
+    } else if (auto *OD = dyn_cast<OMPExecutableDirective>(S)) {
+      std::string cl = "\"clauses\":[";
+      bool firstc = true;
+      for (const OMPClause *C : OD->clauses()) {
+        if (!C)
+          continue;
+        cl += (firstc ? "" : ",") + jstr(llvm::omp::getOpenMPClauseName(C->getClauseKind()));
+        firstc = false;
+      }
+      add(cl + "]");
+      add("\"directive\":" + jstr(llvm::omp::getOpenMPDirectiveName(OD->getDirectiveKind())));
+      add(std::string("\"k\":\"omp\""));
     } else if (auto *BT = dyn_cast<CXXBindTemporaryExpr>(S)) {
       add("\"dtor\":" + jstr(qname(BT->getTemporary()->getDestructor())));
       add(std::string("\"k\":\"bindtemp\""));
